@@ -166,7 +166,7 @@ pub fn run(rng: &mut Rng, tier: &str, out: &str) -> Report {
     let mut rep = Report::new("hist");
     let mut cw = CaseWriter::new(out, "hist", HEADER, 1);
     let thorough = tier == "thorough";
-    let n_model = if thorough { 400 } else { 48 };
+    let n_model = if thorough { 400 } else { 96 };
     let n_univ = if thorough { 4000 } else { 600 };
     for ui in 0..n_univ {
         // every third universe uses the conflict-focused profile
